@@ -77,6 +77,7 @@ struct GenOpts {
   bool fixedTallOnly = false;
   int rowOrientPattern = -1;  // -1 random
   bool positiveArea = true;   // movable cells have positive width/height
+  bool staggered = false;  // 2-3 regions side by side whose row grids have different y origins (row y ranges overlap partially)
   bool comb = false;  // a few wide row levels cut into 66..110 segments each by narrow fixed straps
   bool bigFixed = false;  // fixed macros up to half of the row area in each direction: whole density bins are blocked
   bool feasiblePolarity = false;  // only SAME/OPPOSITE polarities, multi-row cells only when enough rows exist
@@ -179,9 +180,75 @@ inline Circuit genCombCircuit(Rng &rng, const GenOpts &o) {
 }
 
 // ------------------------------------------------------------------------------------------------
+// "Staggered": two or three placement regions side by side, all with the same row height but with row grids that start at
+// different y (offsets that are not multiples of the row height): rows are pairwise disjoint and of uniform height, yet the
+// y ranges of rows of different regions overlap partially. Rows are listed region by region or shuffled.
+inline Circuit genStaggeredCircuit(Rng &rng, const GenOpts &o) {
+  int unit = (int)std::min<long long>(o.scale, 100);
+  int H = (int)rng.pick(std::vector<int>{2, 3, 4, 5, 8, 10, 12}) * unit;
+  int regions = (int)rng.range(2, 3);
+  int x0 = (int)rng.range(-20, 20) * unit, y0 = (int)rng.range(-20, 20) * unit;
+  std::vector<Row> rows;
+  static const CellOrientation rowO[4] = {CellOrientation::N, CellOrientation::FS, CellOrientation::S, CellOrientation::FN};
+  int x = x0, maxLevels = 0;
+  for (int k = 0; k < regions; ++k) {
+    int Wk = (int)rng.range(6, 40) * unit, levels = (int)rng.range(1, 6);
+    int off = k == 0 ? 0 : (int)rng.range(1, H / unit * 2) * unit;  // usually not a multiple of H
+    int pattern = (int)rng.range(0, 2);
+    for (int l = 0; l < levels; ++l)
+      rows.emplace_back(x, x + Wk, y0 + off + l * H, y0 + off + (l + 1) * H, pattern == 0 ? (l % 2 ? CellOrientation::FS : CellOrientation::N) : pattern == 1 ? CellOrientation::N : rowO[rng.range(0, 3)]);
+    x += Wk + (rng.chance(0.5) ? 0 : (int)rng.range(0, 3) * unit);
+    maxLevels = std::max(maxLevels, levels);
+  }
+  if (rng.chance(0.4)) for (int i = (int)rows.size() - 1; i > 0; --i) std::swap(rows[i], rows[rng.range(0, i)]);
+  long long rowArea = 0;
+  for (auto &r : rows) rowArea += (long long)r.width() * r.height();
+  int nFixed = (int)rng.range(0, std::min(o.maxFixed, 3));
+  int nMov = (int)rng.range(std::max(2, o.minCells), std::max(4, std::min(o.maxCells, 40)));
+  double util = o.utilLo + (o.utilHi - o.utilLo) * rng.unif();
+  int total = nFixed + nMov;
+  std::vector<int> w(total), h(total), cx(total), cy(total);
+  std::vector<bool> fx(total, false), ob(total, true);
+  std::vector<CellRowPolarity> pol(total, CellRowPolarity::ANY);
+  std::vector<CellOrientation> ori(total, CellOrientation::N);
+  long long used = 0;
+  for (int i = 0; i < total; ++i) {
+    if (i < nFixed) {
+      fx[i] = true; ob[i] = rng.chance(o.obstructionProb);
+      w[i] = (int)rng.range(1, 5) * unit; h[i] = (int)rng.range(1, 2) * H;
+      cx[i] = x0 + (int)rng.range(-3, (x - x0) / unit) * unit; cy[i] = y0 + (int)rng.range(-H / unit, maxLevels * H / unit + H / unit) * unit;
+      continue;
+    }
+    int nr = (o.multiRow && rng.chance(o.multiRowProb) && maxLevels >= 2) ? 2 : 1;
+    w[i] = (int)rng.range(1, 5) * unit; h[i] = nr * H;
+    if ((double)(used + (long long)w[i] * h[i]) > util * (double)rowArea && i > nFixed) { w[i] = unit; h[i] = H; }
+    used += (long long)w[i] * h[i];
+    cx[i] = x0 + (int)rng.range(-3, (x - x0) / unit + 3) * unit + (int)rng.range(0, unit - 1);
+    cy[i] = y0 + (int)rng.range(-H / unit, (maxLevels + 2) * H / unit) * unit + (int)rng.range(0, unit - 1);
+    if (o.polarity && rng.chance(o.polarityProb)) pol[i] = rng.chance(0.5) ? CellRowPolarity::SAME : CellRowPolarity::OPPOSITE;
+    if (pol[i] == CellRowPolarity::ANY && rng.chance(0.3)) ori[i] = UNTURNED4[rng.range(0, 3)];
+  }
+  Circuit c(total);
+  c.setCellWidth(w); c.setCellHeight(h); c.setCellIsFixed(fx); c.setCellIsObstruction(ob);
+  c.setCellX(cx); c.setCellY(cy); c.setCellRowPolarity(pol); c.setCellOrientation(ori); c.setRows(rows);
+  int nNets = (int)rng.range(0, o.maxNets);
+  for (int n = 0; n < nNets; ++n) {
+    int deg = (int)rng.range(2, 4);
+    std::vector<int> cells, xo, yo;
+    for (int j = 0; j < deg; ++j) { int cc = (int)rng.range(0, total - 1); cells.push_back(cc); xo.push_back((int)rng.range(0, w[cc])); yo.push_back((int)rng.range(0, h[cc])); }
+    c.addNet(cells, xo, yo, 1.0f);
+  }
+  c.hasCellSizeUpdate_ = false;
+  c.hasNetUpdate_ = false;
+  c.check();
+  return c;
+}
+
+// ------------------------------------------------------------------------------------------------
 // Generator of circuits in the C01 domain
 inline Circuit genCircuit(Rng &rng, const GenOpts &o) {
   if (o.comb) return genCombCircuit(rng, o);
+  if (o.staggered) return genStaggeredCircuit(rng, o);
   long long sc = o.scale;
   long long scy = o.rowHeightOverride > 0 ? o.rowHeightOverride : sc;  // y scale
   int H = (int)(rng.pick(std::vector<int>{1, 2, 3, 4, 5, 8, 10, 12}) * scy);
@@ -799,6 +866,8 @@ inline GenOpts makeProfile(Rng &rng, const std::string &name) {
     o.utilLo = 0.85; o.utilHi = 1.1; o.maxCells = 60;
   } else if (name == "obstruction") {
     o.maxFixed = 6; o.obstructionProb = 0.95;
+  } else if (name == "staggered") {
+    o.staggered = true; o.turned = false; o.polarityProb = 0.2; o.maxNets = 25; o.maxCells = 40; o.multiRowProb = 0.1; o.utilHi = 0.8;
   } else if (name == "comb") {
     o.comb = true; o.multiRow = false; o.turned = false; o.polarityProb = 0.2; o.maxNets = 25; o.maxCells = 40;
   } else if (name == "blocked") {
